@@ -1008,6 +1008,29 @@ def w_sibling(S, item):
         construct = 'sfb2d_nonsep[%d-filter] vs sfb2d' % nf
         anch = anchor(S, LL, 'sfb2d_nonsep')
         norm1 = norm2 = lambda v: v
+    elif which in ('afb-prepared', 'sfb-prepared'):
+        # the separable bank given filters already prepared as tensors (the documented second argument form: the
+        # first nf outputs of prep_filt_afb2d / prep_filt_sfb2d) vs the non-separable bank given the raw arrays
+        prep = S.get(LL, 'prep_filt_afb2d' if which == 'afb-prepared' else 'prep_filt_sfb2d')
+        o0 = S.run(prep, *user_filts(nf, Lc, Lr))
+        if o0.kind != 'ok':
+            res['diff'] = 1
+            res['findings'].append(exc_finding(S, o0, prep.name, '%s:%s:prepare' % (mode, cond)))
+            return res
+        prepared = list(o0.value)[:nf]
+        norm1 = norm2 = lambda v: v
+        if which == 'afb-prepared':
+            b, x = base_tensor('x', nb, c, [H, W])
+            o1 = S.run(afb2d, x, prepared, mode)
+            o2 = S.run(S.get(LL, 'afb2d_nonsep'), x, user_filts(nf, Lc, Lr), mode)
+            construct = 'afb2d[%d prepared tensors] vs afb2d_nonsep' % nf
+            anch = anchor(S, LL, 'afb2d')
+        else:
+            bl, ll = base_tensor('coeffs', nb, c, [H, W], extra_e=(4,))
+            o1 = S.run(sfb2d, ll[:, :, 0], ll[:, :, 1], ll[:, :, 2], ll[:, :, 3], prepared, mode)
+            o2 = S.run(S.get(LL, 'sfb2d_nonsep'), ll, user_filts(nf, Lc, Lr), mode)
+            construct = 'sfb2d[%d prepared tensors] vs sfb2d_nonsep' % nf
+            anch = anchor(S, LL, 'sfb2d')
     else:
         raise ValueError(which)
     prob = None
@@ -1139,8 +1162,8 @@ def rec_to_dec(L):
 
 
 def w_orth(S, item):
-    dim, L, size, J = item
-    mode = 'periodization'
+    dim, L, size, J = item[:4]
+    mode = item[4] if len(item) > 4 else 'periodization'      # 'per' is the documented alias
     res = {'cmp': 1, 'diff': 0, 'findings': [], 'sample': None}
     if dim == 1:
         f = S.construct(T1, 'DWT1DForward', J=J, wave=wname(L), mode=mode)
